@@ -121,7 +121,7 @@ for _n, _c in [('time_ts_plus_dur', 't + d is the chrono result or an error when
                     claim=_c, vars=None)
 
 ALL_UNITS = ['value_arith', 'value_cmp', 'value_coll', 'macros', 'preresolved', 'interp', 'interp_vm_g0', 'interp_vm_g1', 'interp_vm_g2', 'interp_vm_g3',
-             'interp_vm_g4', 'interp_vm_g5', 'interp_vm_g6', 'interp_vm_g7', 'builtins', 'wiring', 'parser', 'json', 'compprog', 'parser_expr', 'parser_unary', 'parser_match']
+             'interp_vm_g4', 'interp_vm_g5', 'interp_vm_g6', 'interp_vm_g7', 'builtins', 'wiring', 'parser', 'json', 'compprog', 'parser_expr', 'parser_unary', 'parser_match', 'scanner']
 
 PROPS = {
     'C02': dict(
@@ -138,7 +138,7 @@ PROPS = {
         assumptions=['ProgramDetails::union_from is set union (HashSet, std)'],
     ),
     'C18': dict(
-        units=['parser', 'parser_expr', 'parser_unary'],
+        units=['parser', 'parser_expr', 'parser_unary', 'scanner'],
         level_text='PARTIAL: for the five binary precedence levels the span of a node is proved to be exactly the hull of its first operand\'s span and its last operand\'s span (so children are contained in parents). Token spans, primaries, unary/postfix nodes, line/column tracking and syntax-error locations are NOT under contract.',
         not_covered=['token spans and line/column tracking (string_scanner / string_tokenizer)', 'primaries, unary, member nodes, ternary, match', 'syntax error locations', 're-compiling the spanned text'],
         assumptions=['SourceRange::surrounding is the hull (min of starts, max of ends; derive(Ord) on SourceLocation)'],
